@@ -99,6 +99,9 @@ func (e *Enc) Run() (err error) {
 				}
 			}
 		}
+		for _, lo := range e.DB.LockOrders {
+			keys = append(keys, "b:anyheld:"+lo.Pkg+"."+lo.First, "b:anyheld:"+lo.Pkg+"."+lo.Second)
+		}
 		sort.Strings(keys)
 		for _, k := range keys {
 			if _, ok := st.ghost[k]; !ok {
